@@ -19,6 +19,7 @@ def poly_of(t, limit=400000):
     atoms = {}
 
     def atom(x):
+        x = z3.simplify(x)  # canonical representative (z3 terms are hash-consed)
         k = x.get_id()
         atoms[k] = x
         return {((k, 1),): Fraction(1)}
